@@ -7,7 +7,7 @@ from ..common import C, server_map
 TEXTS = [t for t in V.TEXTS if len(t) > 8 and "\r" not in t]
 TYPED = ["ab", "X", "new ", "é", "x y", "q<BS>r", "k<left>j", "a<right>b", "", "<BS>", "<BS><BS>Z",
          # <c-w> over what the session typed, and at the very place the session began (where it reaches back into the old text)
-         "foo <c-w>x", "<c-w>y", "ab<c-w><c-w>z", "<c-w>"]
+         "foo <c-w>x", "<c-w>y", "ab<c-w><c-w>z", "<c-w>", "xy<c-h>z", "q<c-h><c-h>r"]      # (<c-h> is backspace too)
 
 
 def xmotion(rng, counts):
